@@ -301,7 +301,12 @@ def catalogue(tier):
     # ---- thorough only
     add_split(1, shape=(2, 2, 2), atm=1, conv=3, free=[1], boundary='side')
     add_split(1, shape=(2, 2, 2), atm=2, conv=2, free=[2], boundary='top')
-    add(shape=(3, 2, 2), atm=0, conv=0, free=[], boundary='top')
+    # (boundary blocks on TOP only together with atmosphere type 2: with an atmosphere block AND a boundary
+    #  block above the same column, which of the two huge-volume blocks rectgeo takes for the atmosphere is
+    #  ambiguous - it follows the iteration order of a set of connection names, i.e. the string hash seed -
+    #  and the property does not say which; the shape atm=0 + boundary='top' used to be here and made the
+    #  thorough tier flaky)
+    add(shape=(3, 2, 2), atm=2, conv=0, free=[], boundary='top')
     # (4) 2x2x2 with two / three stepped columns
     add_split(2, shape=(2, 2, 2), atm=1, conv=0, free=[0, 1, 3])
     add_split(1, shape=(2, 2, 2), atm=2, conv=1, conv2=2, free=[1, 2])
